@@ -7,3 +7,7 @@ package fsm
 import sm "github.com/lni/dragonboat/v4/statemachine"
 
 func verifUpdate(uint64, uint64, []sm.Entry) {}
+
+func verifState(string, *FSM) {}
+
+func verifUpdated(*FSM, []sm.Entry) {}
